@@ -19,7 +19,7 @@ for dp, dn, fn in os.walk(os.path.join(REPO, 'dadi')):
         except SyntaxError:
             continue
         # the same canonical forms the loader applies before it pairs names
-        alpha.strip_noops(tree); alpha.ifexp_statements_to_if(tree); alpha.method_reductions_to_functions(tree); alpha.split_independent_parallel_stores(tree); alpha.hoist_else_after_terminal_body(tree); alpha.small_idioms(tree); alpha.set_alpha_parents(tree); alpha.inline_return_temporaries(tree)
+        alpha.strip_noops(tree); alpha.ifexp_statements_to_if(tree); alpha.method_reductions_to_functions(tree); alpha.split_independent_parallel_stores(tree); alpha.hoist_else_after_terminal_body(tree); alpha.bare_returns_to_nesting(tree); alpha.small_idioms(tree); alpha.set_alpha_parents(tree); alpha.inline_return_temporaries(tree)
         d = {}
         for q, node in alpha.top_functions(tree):
             if alpha.unsafe(node):
@@ -32,7 +32,7 @@ for dp, dn, fn in os.walk(os.path.join(REPO, 'dadi')):
 com = {}
 for rel, fns in out.items():
     tree = ast.parse(open(os.path.join(REPO, rel), encoding='utf-8').read())
-    alpha.strip_noops(tree); alpha.ifexp_statements_to_if(tree); alpha.method_reductions_to_functions(tree); alpha.split_independent_parallel_stores(tree); alpha.hoist_else_after_terminal_body(tree); alpha.small_idioms(tree); alpha.set_alpha_parents(tree); alpha.inline_return_temporaries(tree)
+    alpha.strip_noops(tree); alpha.ifexp_statements_to_if(tree); alpha.method_reductions_to_functions(tree); alpha.split_independent_parallel_stores(tree); alpha.hoist_else_after_terminal_body(tree); alpha.bare_returns_to_nesting(tree); alpha.small_idioms(tree); alpha.set_alpha_parents(tree); alpha.inline_return_temporaries(tree)
     d = {}
     for q, node in alpha.top_functions(tree):
         if alpha.unsafe(node):
